@@ -236,7 +236,17 @@ class Interp:
                 # finer partition: the same branch site asked about a *different value* (another matrix, another row) is another decision
                 skey = skey + (_cond_key(value.term)[0],)
             if skey in self.sticky_memo:
-                return self.sticky_memo[skey]
+                out = self.sticky_memo[skey]
+                # the same branch site asked about another value: the path takes the same outcome for it, and says so (its
+                # condition list and term memo must know what was assumed, or facts about the second value would be missing)
+                if isinstance(value, VNum) and value.term is not None and not any("?" in s_ for s_ in value.term.syms()):
+                    tk, fl = _cond_key(value.term)
+                    if tk not in self.term_memo:
+                        self.term_memo[tk] = out != fl
+                        self.conds.append((self.site(node), desc or (ast.unparse(node) if node is not None else "?"), out, value))
+                    elif (self.term_memo[tk] != fl) != out:
+                        return self.term_memo[tk] != fl  # already decided otherwise for this very value: terms are pure values
+                return out
         # a condition whose value is a term already decided on this path has the same outcome (terms are pure
         # values); generic unknowns ('?') are not identities and are never memoised
         tkey = None
@@ -446,11 +456,28 @@ class Interp:
             self.exec_block(st.orelse)
 
     def st_With(self, st):
-        for item in st.items:
-            v = self.eval(item.context_expr)
-            if item.optional_vars is not None:
-                self.assign(item.optional_vars, v, st)
-        self.exec_block(st.body)
+        self._with_items(st, 0)
+
+    def _with_items(self, st, k):
+        if k == len(st.items):
+            self.exec_block(st.body)
+            return
+        item = st.items[k]
+        v = self.eval(item.context_expr)
+        if isinstance(v, VGen) and any((isinstance(d, ast.Name) and d.id == "contextmanager") or (isinstance(d, ast.Attribute) and d.attr == "contextmanager")
+                                       for d in getattr(v.fv.func.node, "decorator_list", [])):
+            # @contextmanager: the generator runs up to its yield, the body of the `with` runs with the yielded value, then the
+            # generator is resumed (its clean-up code after the yield)
+            def on_yield(val):
+                if item.optional_vars is not None:
+                    self.assign(item.optional_vars, val, st)
+                self._with_items(st, k + 1)
+
+            self.run_generator(v, on_yield, st, scope={"env": self.frames[-1].env, "names": _assigned_names(st.body), "body": st.body})
+            return
+        if item.optional_vars is not None:
+            self.assign(item.optional_vars, v, st)
+        self._with_items(st, k + 1)
 
     def st_Try(self, st):
         try:
@@ -680,6 +707,8 @@ class Interp:
                 return items[0] if first else VUnknown("elem@%s" % sid, "unknown")
         if isinstance(it, VList) and it.obj.elem is not None:
             return it.obj.elem
+        if isinstance(it, (VList, VIter, VTuple)):
+            return VUnknown("elem@%s" % sid, "unknown")  # a list the analyser cannot enumerate: one generic element
         if isinstance(it, VUnknown):
             el = getattr(it, "elem", None)
             if first and getattr(it, "elem_first", None) is not None:
@@ -899,7 +928,9 @@ class Interp:
                 continue
             kv = self.eval(k)
             vv = self.eval(v)
-            ok, c = const_of(kv)
+            from .values import dict_key
+
+            ok, c = dict_key(kv)  # constants, and tuples of constants (a dispatch table keyed by (rank, rank))
             if ok:
                 items[c] = vv
             else:
@@ -1047,6 +1078,8 @@ class Interp:
             return VIter(out)
         u = VUnknown("genexp", "iter")
         u.elem = out[0] if out else None
+        u.comp_iter = self._last_comp_iter
+        u.comp_site = self.site(node)
         return u
 
     def ev_SetComp(self, node):
@@ -1323,6 +1356,8 @@ class Interp:
             if last in self.MODELLED_DECORATORS and os.environ.get("QSA_MODELLED_DECORATORS"):
                 continue  # (debug switch) use the built-in models instead of interpreting the repository's decorators
             if last == "wraps":  # functools.wraps(f): copies metadata only
+                continue
+            if last == "contextmanager":  # contextlib.contextmanager: the generator is run by the `with` statement (st_With)
                 continue
             out.append(d)
         return out
